@@ -4,7 +4,7 @@
 # Confirms: applies to /repo HEAD, builds (with and without -tags verif), existing tests pass,
 # demo passes on the unchanged tree and fails with the change.
 export GOFLAGS=-mod=mod GOPROXY=off GOSUMDB=off GOTOOLCHAIN=local
-P=$1; I=$2; PFX=${3:-mut}; TAGI=$I; [ "$PFX" = "mut2" ] && TAGI=b$I; [ "$PFX" = "mut3" ] && TAGI=c$I
+P=$1; I=$2; PFX=${3:-mut}; TAGI=$I; [ "$PFX" = "mut2" ] && TAGI=b$I; [ "$PFX" = "mut3" ] && TAGI=c$I; [ "$PFX" = "mut4" ] && TAGI=d$I
 patch=/tmp/$PFX-$P-$I.patch; meta=/tmp/$PFX-$P-$I.json
 demo=/tmp/$PFX-$P-${I}_demo_test.go
 S=/var/tmp/bipverif-seed-$$; rm -rf $S; mkdir -p $S; rsync -a --exclude .git /repo/ $S/
@@ -33,7 +33,7 @@ for l in out.split('\n'):
     if mm: rows[mm.group(1)]={"violated_obligations":int(mm.group(2)),"with_failing_input":int(mm.group(3)),"first":mm.group(4)[:300]}
 c=sorted(rows)
 res={"id":f"{P}-{I}","property":P,"summary":m.get("summary",""),"needs":m.get("needs",""),
- "origin":"independent sub-agent given only the property text and a scratch worktree of /repo without the verif files",
+ "origin":m.get("origin","independent sub-agent given only the property text and a scratch worktree of /repo without the verif files"),
  "confirmed":"tools/seed.sh: patch applies to /repo HEAD; go build with and without -tags verif; existing suite passes with the change; demo passes on the unchanged tree and fails with the change",
  "demo_cmd":f"cp demo_test.go <tree>/{pkgdir}/zz_demo_test.go && go test {race} -count=1 -run TestDemo {pkgdir}",
  "checks_raising_violation":c,"detail":rows,
